@@ -134,6 +134,16 @@ func childWorkload(dir, stepsFile string) {
 	}
 	rep := hx.NewSilentReport(&hx.Report{})
 	var h *hist.H
+	// in the dry run the shim keeps its running count in a file: note it after every step, so that the parent knows which
+	// storage calls belong to which step
+	calls := func() string {
+		cf := os.Getenv("CRASH_COUNT")
+		if cf == "" {
+			return ""
+		}
+		b, _ := os.ReadFile(cf)
+		return " calls=" + strings.TrimSpace(string(b))
+	}
 	for i, s := range steps {
 		switch s.Kind {
 		case "login":
@@ -143,10 +153,10 @@ func childWorkload(dir, stepsFile string) {
 			if s.User == histUser && h == nil {
 				h = hist.NewReal(w, rep, histUser)
 			}
-			fmt.Fprintf(out, "ack %d login %v\n", i, ok)
+			fmt.Fprintf(out, "ack %d login %v%s\n", i, ok, calls())
 		case "op":
 			impl := h.RealOp(mkOp(s.Op))
-			fmt.Fprintf(out, "ack %d op %s\n", i, strings.Fields(impl + " -")[0])
+			fmt.Fprintf(out, "ack %d op %s%s\n", i, strings.Fields(impl + " -")[0], calls())
 		case "mdeliver":
 			// per-recipient acknowledgements, in the order the client receives them
 			_, data := w.Deliver("sender@example.org", s.To, hist.Msg(s.ID))
@@ -156,7 +166,7 @@ func childWorkload(dir, stepsFile string) {
 					codes = append(codes, d[:3])
 				}
 			}
-			fmt.Fprintf(out, "ack %d mdeliver %s\n", i, strings.Join(codes, ","))
+			fmt.Fprintf(out, "ack %d mdeliver %s%s\n", i, strings.Join(codes, ","), calls())
 		}
 	}
 	fmt.Fprintf(out, "done\n")
@@ -500,10 +510,11 @@ func workBase() string {
 }
 
 type runResult struct {
-	acks   []string
-	done   bool
-	killed bool
-	errOut string
+	callsAt []int // dry run: the storage-call count after each acknowledged step
+	acks    []string
+	done    bool
+	killed  bool
+	errOut  string
 }
 
 func runWorkload(dir, stepsFile string, killAt int, countFile string) runResult {
@@ -525,6 +536,12 @@ func runWorkload(dir, stepsFile string, killAt int, countFile string) runResult 
 	for sc.Scan() {
 		l := sc.Text()
 		if strings.HasPrefix(l, "ack ") {
+			if i := strings.Index(l, " calls="); i >= 0 {
+				var n int
+				fmt.Sscan(l[i+7:], &n)
+				res.callsAt = append(res.callsAt, n)
+				l = l[:i]
+			}
 			res.acks = append(res.acks, l)
 		}
 		if l == "done" {
@@ -632,7 +649,48 @@ func main() {
 		}
 	} else {
 		points = append(points, 0) // no kill: clean stop and restart
+		// quick: a few crash points inside every step of the workload (so that short multi-statement steps such as RENAME of
+		// INBOX are hit as surely as the thousand-call store creations), thorough: every point
+		if !o.Thorough && len(full.callsAt) == len(full.acks) {
+			rng := hx.NewRng(o.Seed)
+			prev := 0
+			for si, end := range full.callsAt {
+				n := end - prev
+				k := 4
+				if n > 300 {
+					k = 7
+				}
+				// steps made of several statements outside one transaction get a dense sample: their windows are a few calls wide
+				if si < len(steps) && steps[si].Kind == "op" {
+					switch strings.Fields(steps[si].Op)[0] {
+					case "rename", "delete", "expunge", "copy", "uidcopy":
+						if k = n / 3; k > 80 {
+							k = 80
+						}
+					}
+				}
+				if n < k {
+					k = n
+				}
+				seen := map[int]bool{}
+				for j := 0; j < k; j++ {
+					p := prev + 1 + rng.Intn(n)
+					if n >= 8 && j < 2 {
+						// the middle half of a step is where its statements are
+						p = prev + 1 + n/4 + rng.Intn(n/2+1)
+					}
+					if !seen[p] {
+						seen[p] = true
+						points = append(points, p)
+					}
+				}
+				prev = end
+			}
+		}
 		stride := total / 60
+		if !o.Thorough && len(points) > 1 {
+			stride = total + 1 // the stratified points are the quick sample
+		}
 		if o.Thorough {
 			stride = 1
 			if total > 2500 {
